@@ -146,6 +146,26 @@ func SimC05(c *CheckCtx, i int, r *Rng) error {
 		after := mk(perm(), false)
 		after.Fresh = false
 		sc.Variants = append(sc.Variants, Variant{Name: "together:after-failure", Ops: []Op{{Kind: "run", Run: failing}, {Kind: "run", Run: after}}})
+		if !twoModules && len(sc.Setup) == 0 {
+			// (only in worlds without earlier outputs: the cache knows nothing about generators that changed
+			// their behaviour since, and a package it skips rightly keeps what the old behaviour wrote)
+			// the same through All and the cache, on a slow machine: an All run fails half-way, the next All
+			// run succeeds - then EVERY local package, generated now or trusted as cached, is as when
+			// generated alone
+			f2 := *failing
+			f2.Args.All, f2.Args.Force = true, false
+			f2.Sched.Clock = "slow:2500"
+			f2.Faults = nil
+			for _, g := range gens {
+				if isScripted(&g) {
+					f2.Faults = append(f2.Faults, proto.Fault{ExecSeq: -1, Kind: "gen", Gen: g.Name, Nth: r.Range(2, 5), Do: "gen-error"})
+				}
+			}
+			a2 := *after
+			a2.Args.All, a2.Args.Force = true, false
+			a2.Fresh = r.P(0.5)
+			sc.Variants = append(sc.Variants, Variant{Name: "together:all-after-failure", Ops: []Op{{Kind: "run", Run: &f2}, {Kind: "run", Run: &a2}}})
+		}
 	}
 	for pi := range m.Pkgs {
 		sc.Variants = append(sc.Variants, Variant{Name: fmt.Sprintf("alone:%d", pi), Ops: []Op{{Kind: "run", Run: mk([]int{pi}, false)}}})
